@@ -11,7 +11,7 @@ RULE = ("all bar plans (sequences of 1..B signatures over {default, 4/4, 3/4, 2/
         "lines, empty side tracks, side tracks longer than the meta track, exact-multiple and one-tick-over lengths) x "
         "meta index {first, last} x both re-quantisation settings; compared with the bar-grid reference model; "
         "non-trivial = >=2 bars and (>=2 tracks or a signature change)")
-SCALE = ('10-bar three-track plans; pieces of 15/16/17/31/32/33/48/64/65 bars in 4/4, 3/4, 6/8 with a 5/8 bar inside, tracks ending in the last / the last but one bar, a short and an empty track, bass notes held for eight bars under an eighth-note melody')
+SCALE = ('10-bar three-track plans; pieces of 15/16/17/31/32/33/48/64/65 bars in 4/4, 3/4, 6/8 with a 5/8 bar inside, tracks ending in the last / the last but one bar, a short and an empty track, bass notes held for eight bars under an eighth-note melody; two voices on one pitch in one track in sane and canonical order; a fragment of EVERY length 1..35 in front of a bar line, alone and with a close follower')
 ASSUMPTIONS = ["note durations of the inputs are default note values, so that only boundary-cut fragments may shrink "
                "when re-quantisation is on", "signature/key events are placed only on bars that exist (start < duration)"]
 REQUIRED_FLAGS = ["signature_change", "key_change", "note_crosses_bar_line", "unequal_track_lengths", "empty_track",
